@@ -742,9 +742,12 @@ def check_timecodec(pid, tier, seed, scratch, replay):
 
     with cf.ThreadPoolExecutor(max_workers=vlib.NCPU) as ex:
         mc = ex.submit(lambda: require_ok(tlc(scratch, "MC_TimeCodec", "MC_TimeCodec.cfg", workers=4), "MC_TimeCodec"))
+        # unbounded: the mixed-radix rendering and truncation laws for every instant, by Apalache (SMT)
+        apa = ex.submit(lambda: vlib.apalache(scratch, "TimeLaws", "Laws"))
         traces = [f.result() for f in [ex.submit(run_tc, j) for j in jobs]]
         vals = validate(ex, scratch, traces, "TraceTime", "TraceTime.cfg", per_jvm=12000)
         rep.add_mc("MC_TimeCodec.cfg", mc.result())
+        rep.extra["apalache"] = apa.result()
     collect(rep, vals, pid, nontrivial=lambda ev: True, key=lambda ev: [ev["fmt"], ev["fps"], ev["t"]], is_first=lambda ev: True)
     return rep.finish()
 
